@@ -203,4 +203,6 @@ def admissibility(names, extra=None):
             out.append(v > 0)
         elif col in ("loss_coefficient", "u_w_per_m2k", "scaling"):
             out.append(v >= 0)
+        elif col in ("p_bar", "pn_bar", "p_flow_bar", "controlled_p_bar"):
+            out.append(v > -1)       # absolute pressure positive
     return out + list(extra or [])
